@@ -129,7 +129,9 @@ type WalletState struct {
 	Pass     string
 	HD       *HDWallet
 	// issued addresses in order of issue: index -> class (0 std, 1 staking)
-	Issued []IssuedAddr
+	Issued   []IssuedAddr
+	Removing bool // removal requested and accepted
+	Imported bool // restored from mnemonic / keystore (addresses learnt from the API)
 }
 
 type IssuedAddr struct {
@@ -148,13 +150,14 @@ type Instance struct {
 	srv  *fakeServer
 	Cfg  *config.Config
 
-	Pending    []delivery
-	QuitClosed bool
-	Dead       bool
-	Started    bool
-	Stopped    bool
-	handlerG   *G
-	workerG    *G
+	Pending       []delivery
+	QuitClosed    bool
+	Dead          bool
+	Started       bool
+	Stopped       bool
+	StopRequested bool
+	handlerG      *G
+	workerG       *G
 
 	Wallets map[string]*WalletState
 	Current string
@@ -296,7 +299,7 @@ func (inst *Instance) Open() error {
 	}
 	inst.DB = NewSimDB(inner, w.S, inst)
 	inst.srv = newFakeServer(w.Node)
-	inst.QuitClosed, inst.Dead, inst.Started, inst.Stopped = false, false, false, false
+	inst.QuitClosed, inst.Dead, inst.Started, inst.Stopped, inst.StopRequested = false, false, false, false, false
 	inst.handlerG, inst.workerG = nil, nil
 	inst.Pending = nil
 	inst.Current = ""
